@@ -22,12 +22,17 @@ NO_PANIC_REVIEWED = {
 ASSERT_IGNORED = ('ResumedAfterReturn', 'ResumedAfterPanic', 'ResumedAfterDrop',
                   'MisalignedPointerDereference', 'NullPointerDereference', 'InvalidEnumConstruction')
 
+USER_PANIC_MACROS = ('panic', 'panic_2021', 'panic_2015', 'assert', 'assert_eq', 'assert_ne', 'debug_assert', 'debug_assert_eq', 'debug_assert_ne',
+                     'unimplemented', 'unreachable', 'todo', 'unreachable_2021')
+
 class Source:
     def __init__(self, fn, kind, callee, label, loc, macro):
         self.fn, self.kind, self.callee, self.label, self.loc, self.macro = fn, kind, callee, label, loc, macro
+        self.key_fn = fn          # the function the key names (the baseline ancestor for code moved into a new helper)
+        self.discharged = None    # reason, when a discharge rule decides the source cannot fire
     @property
     def key(self):
-        return '%s | %s | %s | %s' % (self.fn, self.kind, self.callee, self.label)
+        return '%s | %s | %s | %s' % (self.key_fn, self.kind, self.callee, self.label)
 
 class Graph:
     def __init__(self, facts, repo):
@@ -100,7 +105,8 @@ class Graph:
                         if before.endswith('::') or after.startswith('::') or after.startswith('!'):
                             return w
                         return '_'
-                    out.append(re.sub(r'\b[A-Za-z_][A-Za-z0-9_]*\b', rep2, part))
+                    part2 = re.sub(r'\b[A-Za-z_][A-Za-z0-9_]*\b', rep2, part)
+                    out.append(re.sub(r"(?<![\w'.])(0[xX][0-9a-fA-F_]+|0[bB][01_]+|0[oO][0-7_]+|[0-9][0-9_]*)((?:[iu](?:8|16|32|64|128|size))?)\b", norm_int, part2))
             t = ''.join(out)
         t = re.sub(r'\s+', '', t)
         return t[:limit]
@@ -207,13 +213,16 @@ class Graph:
                     continue
                 macro = sp[5] if len(sp) > 5 else None
                 where = '%s:%d' % (sp[0], sp[1])
+                foreign = macro is not None and not macro.startswith('desugar') and macro.split('::')[-1] not in USER_PANIC_MACROS
                 if t['k'] == 'Assert':
                     kind = t['assert']
                     if kind.split('(')[0] in ASSERT_IGNORED or t.get('all_const'):
                         continue
                     if kind in ('Overflow(Shl)', 'Overflow(Shr)') and shift_const_ok(t.get('operands', ''), m.get('local_tys', [])):
                         continue      # shift by a literal smaller than the operand width cannot overflow
-                    out.append(Source(p, 'assert', kind, self.label(p, sp), where, macro))
+                    src = Source(p, 'assert', kind, ('macro:' + macro) if foreign else self.label(p, sp), where, macro)
+                    src.discharged = guarded_arith(self.facts, p, sp, kind) or enumerate_index(self.facts, p, sp, kind)
+                    out.append(src)
                 elif t['k'] in ('Call', 'TailCall'):
                     c = t.get('inst') or t.get('callee')
                     if t.get('diverges'):
@@ -228,9 +237,15 @@ class Graph:
                     ext_seen[c] = cls
                     if cls[0] == 'may-panic':
                         lab = self.label(p, t.get('fn_sp') or sp)
+                        if foreign and len((t.get('fn_sp') or sp)) > 5:
+                            lab = 'macro:' + macro      # code generated by a macro: keyed by the macro, not by its argument text
                         if '{' in lab:
                             lab = lab[:lab.index('{') + 1]      # a closure / async block argument: its text is not part of the key
-                        out.append(Source(p, 'may-panic-call', short(c), lab, where, macro))
+                        src = Source(p, 'may-panic-call', short(c), lab, where, macro)
+                        src.discharged = lock_poison(t)
+                        out.append(src)
+        for src in out:
+            src.key_fn = attribute(self.facts, parent, src.fn)
         return out, ext_seen
 
     def classify(self, c, t):
@@ -281,6 +296,14 @@ class Graph:
         return res
 
 
+def norm_int(m):
+    """An integer literal in canonical decimal spelling (0x20, 0b10_0000 and 32u8 are the same key)."""
+    t = m.group(1).replace('_', '')
+    try:
+        return str(int(t, 0) if t[:2].lower() in ('0x', '0b', '0o') else int(t))
+    except ValueError:
+        return m.group(0)
+
 def shift_const_ok(operands, local_tys):
     m = re.search(r'const (\d+)_[iu](\d+|size)\s*$', operands.strip())
     if not m:
@@ -310,11 +333,24 @@ def group_keys(sources):
     """key -> (count, first source); the reported key carries the multiplicity."""
     g = collections.OrderedDict()
     for s in sources:
-        g.setdefault(s.key, []).append(s)
+        g.setdefault((s.key, bool(s.discharged)), []).append(s)
     out = []
-    for k, lst in g.items():
+    for (k, _d), lst in g.items():
         out.append(('%s x%d' % (k, len(lst)), lst))
     return out
+
+def judge(ctx, rule, groups, triage, describe):
+    """Turn grouped sources into obligations: decided by a discharge rule, reviewed infeasible, or a violation."""
+    for key, lst in groups:
+        s = lst[0]
+        if s.discharged:
+            ctx.ok(rule + '(decided)', key, s.loc, s.discharged)
+            continue
+        cls = triage.get(key)
+        if cls and cls[0] == 'infeasible':
+            ctx.ok(rule + '(reviewed-infeasible)', key, s.loc, cls[1])
+        else:
+            ctx.fail(rule, key, s.loc, describe(s) + (('; triage: ' + cls[1]) if cls else ''))
 
 def load_triage(path):
     t = {}
@@ -329,3 +365,190 @@ def load_triage(path):
             if len(parts) >= 3:
                 t[parts[0]] = (parts[1], parts[2])
     return t
+
+
+# ---------------------------------------------------------------------------------------
+# Deciding panic sources instead of freezing a judgement about them.
+#
+# A source met in a cone is first offered to the *discharge rules* below; each decides, from the resolved program,
+# that the source cannot fire.  Only a source no rule decides falls back to the reviewed triage table (keyed without
+# line numbers and without local names).  A discharge rule re-reads the guard on every run, so removing the guard
+# turns the source into a violation; and it does not care in which function the construct lives, so moving it into a
+# helper does not.
+
+import hirq as _hirq
+from facts import walk as _walk
+
+INT_MAX = {'u8': 255, 'u16': 65535, 'u32': 2**32 - 1, 'u64': 2**64 - 1, 'usize': 2**64 - 1,
+           'i8': 127, 'i16': 32767, 'i32': 2**31 - 1, 'i64': 2**63 - 1, 'isize': 2**63 - 1}
+
+def hir_owner(facts, body_path):
+    owner = body_path
+    while owner not in facts.hir_all and '::{' in owner:
+        owner = owner.rsplit('::{', 1)[0]
+    return facts.hir_all.get(owner)
+
+def expr_eq(facts, a, b):
+    a, b = _hirq.peel_refs(a), _hirq.peel_refs(b)
+    ca, cb = _hirq.const_eval(facts, a), _hirq.const_eval(facts, b)
+    if ca is not None or cb is not None:
+        return ca is not None and ca == cb
+    if a['k'] != b['k']:
+        return False
+    k = a['k']
+    if k == 'Path':
+        return (a.get('res') == 'local' and b.get('res') == 'local' and a['bind'] == b['bind']) or \
+               (a.get('res') != 'local' and a.get('def') is not None and a.get('def') == b.get('def'))
+    if k == 'Field':
+        return a['name'] == b['name'] and expr_eq(facts, a['e'], b['e'])
+    if k == 'MethodCall':
+        return (a.get('callee') == b.get('callee') and a['name'] == b['name'] and a['name'] in ('len', 'input_len')
+                and not a['args'] and not b['args'] and expr_eq(facts, a['recv'], b['recv']))
+    if k == 'Cast':
+        return expr_eq(facts, a['e'], b['e'])
+    return False
+
+def _cmp_facts(cond, truth, out):
+    """Comparisons known to hold when `cond` evaluates to `truth`: (l, op, r) with op in Lt Le Gt Ge Eq Ne."""
+    if cond['k'] == 'Binary':
+        op = cond['op']
+        if op == 'And' and truth:
+            _cmp_facts(cond['l'], True, out); _cmp_facts(cond['r'], True, out)
+        elif op == 'Or' and not truth:
+            _cmp_facts(cond['l'], False, out); _cmp_facts(cond['r'], False, out)
+        elif op in ('Lt', 'Le', 'Gt', 'Ge', 'Eq', 'Ne'):
+            neg = {'Lt': 'Ge', 'Le': 'Gt', 'Gt': 'Le', 'Ge': 'Lt', 'Eq': 'Ne', 'Ne': 'Eq'}
+            out.append((cond['l'], op if truth else neg[op], cond['r']))
+    elif cond['k'] == 'Unary' and cond.get('op') == 'Not':
+        _cmp_facts(cond['e'], not truth, out)
+
+def known_comparisons(B, node):
+    """Comparisons that hold whenever `node` is evaluated: enclosing if-branches and earlier early-exit guards
+    (`if c { return / break / continue / panic }` without else) in the enclosing blocks."""
+    out = []
+    ctx = B.context(node)
+    chain = [a for a, _r in ctx] + [node]
+    for i, (anc, role) in enumerate(ctx):
+        child = chain[i + 1]
+        if anc['k'] == 'If' and role in ('then', 'els'):
+            _cmp_facts(anc['cond'], role == 'then', out)
+        elif anc['k'] == 'Block':
+            for s in anc['stmts']:
+                e = s.get('e') if s['k'] in ('Expr', 'Semi') else s.get('init')
+                if e is child or (s['k'] == 'Let' and s.get('init') is child):
+                    break
+                if e is not None and any(x is child for x, _ in _walk(e)):
+                    break
+                if s['k'] in ('Expr', 'Semi') and e['k'] == 'If' and e.get('els') is None and _hirq.diverges(e['then']):
+                    _cmp_facts(e['cond'], False, out)
+    return out
+
+def _mutated(B, e):
+    b = _hirq.root_local(_hirq.peel_refs(e)) if e['k'] != 'Lit' else None
+    return b is not None and bool(B.assigns.get(b))
+
+def guarded_arith(facts, body_path, src_sp, kind):
+    """D2: an Overflow(Sub)/Overflow(Add) assert on `a - b` / `a + c` is discharged when a comparison that holds
+    at the operation excludes the overflow.  Returns a reason string or None."""
+    rec = hir_owner(facts, body_path)
+    if rec is None or kind not in ('Overflow(Sub)', 'Overflow(Add)'):
+        return None
+    B = _hirq.Body(facts, rec)
+    cands = [n for n in B.nodes if n['k'] in ('Binary', 'AssignOp') and n.get('sp') and list(n['sp'][:5]) == list(src_sp[:5])]
+    if len(cands) != 1:
+        return None
+    n = cands[0]
+    op = n['op'].replace('Assign', '')
+    if op not in ('Add', 'Sub'):
+        return None
+    l, r = n['l'], n['r']
+    if _mutated(B, l) or _mutated(B, r):
+        return None
+    facts_here = known_comparisons(B, n)
+    def holds(a, rel, b):
+        """a rel b follows from one known comparison (structurally, or through constants)."""
+        for x, o, y in facts_here:
+            flip = {'Lt': 'Gt', 'Le': 'Ge', 'Gt': 'Lt', 'Ge': 'Le', 'Eq': 'Eq', 'Ne': 'Ne'}
+            for (p, oo, q) in ((x, o, y), (y, flip[o], x)):
+                if not expr_eq(facts, p, a):
+                    continue
+                cq, cb = _hirq.const_eval(facts, q), _hirq.const_eval(facts, b)
+                if expr_eq(facts, q, b):
+                    if rel == 'Ge' and oo in ('Ge', 'Gt', 'Eq'): return True
+                    if rel == 'Le' and oo in ('Le', 'Lt', 'Eq'): return True
+                    if rel == 'Ne' and oo in ('Ne', 'Lt', 'Gt'): return True
+                if isinstance(cq, int) and isinstance(cb, int):
+                    if rel == 'Ge' and ((oo == 'Ge' and cq >= cb) or (oo == 'Gt' and cq + 1 >= cb) or (oo == 'Eq' and cq >= cb)): return True
+                    if rel == 'Le' and ((oo == 'Le' and cq <= cb) or (oo == 'Lt' and cq - 1 <= cb) or (oo == 'Eq' and cq <= cb)): return True
+        return False
+    if op == 'Sub' and kind == 'Overflow(Sub)':
+        if holds(l, 'Ge', r):
+            return 'guarded: a comparison that holds at the subtraction gives minuend >= subtrahend'
+    if op == 'Add' and kind == 'Overflow(Add)':
+        c = _hirq.const_eval(facts, r)
+        ty = _hirq.strip_refs(n.get('ty') or '')
+        mx = INT_MAX.get(ty)
+        if isinstance(c, int) and mx is not None and c >= 0:
+            bound = {'k': 'Lit', 'v': mx - c}
+            if holds(l, 'Le', bound):
+                return 'guarded: a comparison that holds at the addition bounds the operand by %s::MAX - %d' % (ty, c)
+            if c == 1 and holds(l, 'Ne', {'k': 'Lit', 'v': mx}):
+                return 'guarded: the operand is known to differ from %s::MAX' % ty
+    return None
+
+def enumerate_index(facts, body_path, src_sp, kind):
+    """D3: `i + 1` where i is the index component of an `Iterator::enumerate()` item (or `n + 1` inside a closure over
+    one) cannot overflow: the index is smaller than the length of an in-memory sequence, hence < usize::MAX."""
+    rec = hir_owner(facts, body_path)
+    if rec is None or kind != 'Overflow(Add)':
+        return None
+    B = _hirq.Body(facts, rec)
+    cands = [n for n in B.nodes if n['k'] == 'Binary' and n.get('sp') and list(n['sp'][:5]) == list(src_sp[:5])]
+    if len(cands) != 1 or cands[0]['op'] != 'Add' or _hirq.const_eval(facts, cands[0]['r']) != 1:
+        return None
+    b = _hirq.local_of(cands[0]['l'])
+    d = B.defs.get(b)
+    if d is None or B.assigns.get(b) or d['proj'][:1] != (('tup', 0),):
+        return None
+    def is_enum(e):
+        e = _hirq.peel_refs(e)
+        while e['k'] == 'MethodCall' and e['name'] in ('iter', 'into_iter', 'by_ref'):
+            e = e['recv']
+        return e['k'] == 'MethodCall' and (e.get('callee') or '') == 'core::iter::traits::iterator::Iterator::enumerate'
+    if d['kind'] == 'for' and is_enum(d['src']):
+        return 'the operand is an enumerate() index'
+    if d['kind'] == 'cparam':
+        # closure parameter of an adaptor applied to an enumerate() chain
+        for n, ctx in _walk(B.root):
+            if n['k'] == 'MethodCall' and any(a is d['node'] for a in n['args']):
+                e = n['recv']
+                while e['k'] == 'MethodCall':
+                    if (e.get('callee') or '') == 'core::iter::traits::iterator::Iterator::enumerate':
+                        return 'the operand is an enumerate() index'
+                    e = e['recv']
+    return None
+
+def lock_poison(term):
+    """D1: expect/unwrap on a LockResult panics only if another thread panicked while holding the lock."""
+    c = term.get('inst') or term.get('callee') or ''
+    if c.rsplit('::', 1)[-1] in ('expect', 'unwrap') and c.startswith('core::result::Result::<T, E>::'):
+        tys = term.get('arg_tys') or ['']
+        if 'PoisonError<' in tys[0]:
+            return 'lock poisoning needs a prior panic of another holder while the lock is held; the critical sections of this lock are analysed for panic sources on their own (C05 N1 / this cone)'
+    return None
+
+def attribute(facts, parent, fn):
+    """A source inside a helper that does not exist on the baseline tree is attributed to the nearest baseline
+    function through which the cone reaches it, so a key does not change when code moves into a new helper."""
+    new = getattr(facts, 'new_fns', set())
+    p = fn
+    seen = 0
+    while p is not None and seen < 50:
+        base = p
+        while base not in facts.hir_all and '::{' in base:
+            base = base.rsplit('::{', 1)[0]
+        if base not in new:
+            return p
+        p = parent.get(p)
+        seen += 1
+    return fn
